@@ -480,6 +480,93 @@ theorem engine_retract_post (e1 : Engine) (hi1 : WMInv e1.wm) (hd1 : DataOK e1.w
   · exact ⟨wminv_pres.ret _ _ _ hi1 hw, dataOK_retract hd1 hw, hr, fun _ _ h => retract_known hw h,
       fun h ty hl => ((retract_live_iff hi1 hw h ty).1 hl).1⟩
 
+
+/-! ### expression assignments: `resolve` depends on the contents only through `Data.get`, and — for expressions that read fields
+of the rule's own type only — not on the facts of other types -/
+
+theorem mem_of_mem_take {α : Type} {x : α} {l : List α} {n : Nat} (h : x ∈ l.take n) : x ∈ l := List.mem_of_mem_take h
+
+theorem evalSplit_congr {R : Type} (classes : List (AOp → Bool)) (leaf leaf' : Atom → R) (app : AOp → R → R → R) :
+    ∀ (fuel : Nat) (a : Atom) (tail : List (AOp × Atom)), leaf a = leaf' a → (∀ p ∈ tail, leaf p.2 = leaf' p.2) →
+      evalSplit classes leaf app fuel a tail = evalSplit classes leaf' app fuel a tail := by
+  intro fuel
+  induction fuel with
+  | zero => intro a tail ha _; simp only [evalSplit, ha]
+  | succ n ih =>
+    intro a tail ha ht
+    simp only [evalSplit]
+    cases splitIdx classes tail with
+    | none => exact ha
+    | some i =>
+      simp only
+      cases hd : tail.drop i with
+      | nil => exact ha
+      | cons ob rest =>
+        obtain ⟨o, b⟩ := ob
+        simp only
+        have hb : (o, b) ∈ tail := List.mem_of_mem_drop (by rw [hd]; simp)
+        rw [ih a (tail.take i) ha (fun p hp => ht p (List.mem_of_mem_take hp)),
+            ih b rest (ht _ hb) (fun p hp => ht p (List.mem_of_mem_drop (by rw [hd]; exact List.mem_cons_of_mem _ hp)))]
+
+theorem atom_xv_local (ty : Nat) (look look' : Nat → Nat → Option Val) (h : ∀ k, look ty k = look' ty k) (a : Atom)
+    (ha : a.localTo ty = true) : Atom.xv look a = Atom.xv look' a := by
+  cases a with
+  | num t => rfl
+  | word s => rfl
+  | fld t f =>
+    have : t = ty := by simpa [Atom.localTo] using ha
+    subst this
+    simp only [Atom.xv, h]
+
+theorem actVal_local (ty : Nat) (look look' : Nat → Nat → Option Val) (h : ∀ k, look ty k = look' ty k) (e : Expr) (sid : Nat)
+    (he : e.localTo ty = true) : e.actVal look sid = e.actVal look' sid := by
+  simp only [Expr.localTo, Bool.and_eq_true, List.all_eq_true] at he
+  unfold Expr.actVal Expr.actXV Expr.evalWith
+  rw [evalSplit_congr stdClasses _ (Atom.xv look') XV.apply _ _ _ (atom_xv_local ty look look' h _ he.1)
+    (fun p hp => atom_xv_local ty look look' h _ (he.2 p hp))]
+
+/-- two copies of the contents that agree field by field, any facts of the other types: the same assignments -/
+theorem resolveX_congr (ty : Nat) (other other' : Nat → Data) : ∀ (xs : List (Nat × Expr × Nat)) (d d' : Data),
+    (∀ k, d.get k = d'.get k) → (xs.all (fun p => p.2.1.localTo ty)) = true → resolveX ty other d xs = resolveX ty other' d' xs := by
+  intro xs
+  induction xs with
+  | nil => intro _ _ _ _; rfl
+  | cons x t ih =>
+    intro d d' hg hl
+    obtain ⟨f, e, sid⟩ := x
+    simp only [List.all_cons, Bool.and_eq_true] at hl
+    have hv : e.actVal (fun t k => if t == ty then d.get k else (other t).get k) sid =
+        e.actVal (fun t k => if t == ty then d'.get k else (other' t).get k) sid :=
+      actVal_local ty _ _ (fun k => by simp [hg k]) e sid hl.1
+    simp only [resolveX, hv]
+    congr 1
+    exact ih _ _ (fun k => by rw [get_set, get_set, hg k]) hl.2
+
+theorem resolve_congr (a : Action) (ty : Nat) (other other' : Nat → Data) (d d' : Data) (hg : ∀ k, d.get k = d'.get k)
+    (hl : a.localTo ty = true) : a.resolve ty other d = a.resolve ty other' d' := by
+  unfold Action.resolve
+  congr 1
+  exact resolveX_congr ty other other' a.xsets _ _ (fun k => get_foldl_congr a.sets d d' hg k) hl
+
+/-- the same without the locality hypothesis when the other types are the same -/
+theorem resolveX_congr_data (ty : Nat) (other : Nat → Data) : ∀ (xs : List (Nat × Expr × Nat)) (d d' : Data),
+    (∀ k, d.get k = d'.get k) → resolveX ty other d xs = resolveX ty other d' xs := by
+  intro xs
+  induction xs with
+  | nil => intro _ _ _; rfl
+  | cons x t ih =>
+    intro d d' hg
+    obtain ⟨f, e, sid⟩ := x
+    have hl : (fun t k => if t == ty then d.get k else (other t).get k) = (fun t k => if t == ty then d'.get k else (other t).get k) := by
+      funext t k; rw [hg k]
+    simp only [resolveX, hl]
+    congr 1
+    exact ih _ _ (fun k => by rw [get_set, get_set, hg k])
+
+theorem resolve_nil_xsets (a : Action) (ty : Nat) (other : Nat → Data) (d : Data) (h : a.xsets = []) :
+    a.resolve ty other d = a.sets := by
+  simp [Action.resolve, h, resolveX]
+
 /-- what the loop body (`fireOne`) guarantees when it fires -/
 structure BodyPost (e e' : Engine) (x : Firing) (rule : Rule) (f : Fact) : Prop where
   rule_found : e.rules.find? (·.name == x.rule) = some rule
@@ -492,7 +579,8 @@ structure BodyPost (e e' : Engine) (x : Firing) (rule : Rule) (f : Fact) : Prop 
   live : ∀ h ty, Live e'.wm h ty → Live e.wm h ty
   retracted : rule.action.retract = true → f.ty = rule.ty → ∀ ty, ¬ Live e'.wm x.handle ty
   kept : rule.action.retract = false → f.ty = rule.ty → (∀ g ∈ e.wm.getAllFacts, g.ty = f.ty → g = f) →
-    ∃ f', e'.wm.get x.handle = some f' ∧ ∀ k, f'.data.get k = (applySets f.data rule.action.sets).get k
+    ∃ f', e'.wm.get x.handle = some f' ∧
+      ∀ k, f'.data.get k = (applySets f.data (rule.action.resolve rule.ty (fun t => flatOf e.wm t) f.data)).get k
 
 theorem fireOne_post (e e' : Engine) (a : Act) (x : Firing) (hi : WMInv e.wm) (hd : DataOK e.wm)
     (h : e.fireOne a = (e', some x)) : ∃ rule f, BodyPost e e' x rule f := by
@@ -518,9 +606,9 @@ theorem fireOne_post (e e' : Engine) (a : Act) (x : Firing) (hi : WMInv e.wm) (h
           have hname : rule.name = a.rule := by simpa using List.find?_some hr
           have hfound : e.rules.find? (·.name == rule.name) = some rule := by rw [hname]; exact hr
           -- the engine after write-back and re-propagation
-          have hk := wb_keys e.wm rule.ty rule.action.sets
-          have hi1 : WMInv (writeBack e.wm rule.ty rule.action.sets) := wminv_pres.wb _ _ _ hi
-          have hd1 : DataOK (writeBack e.wm rule.ty rule.action.sets) := wb_dataOK _ _ _ hd
+          have hk := wb_keys e.wm rule.ty (e.setsOf rule)
+          have hi1 : WMInv (writeBack e.wm rule.ty (e.setsOf rule)) := wminv_pres.wb _ _ _ hi
+          have hd1 : DataOK (writeBack e.wm rule.ty (e.setsOf rule)) := wb_dataOK _ _ _ hd
           obtain ⟨hfl, hfh⟩ := live_of_get hg
           by_cases hret : rule.action.retract = true
           · simp only [hret, if_true] at he'
@@ -528,12 +616,12 @@ theorem fireOne_post (e e' : Engine) (a : Act) (x : Firing) (hi : WMInv e.wm) (h
             · have hb : (f.ty == rule.ty) = true := by simpa using hty
               simp only [hb, if_true] at he'
               -- the matched fact itself is retracted
-              have hlive1 : Live (writeBack e.wm rule.ty rule.action.sets) hd' f.ty :=
+              have hlive1 : Live (writeBack e.wm rule.ty (e.setsOf rule)) hd' f.ty :=
                 (live_of_keys hk.1 hd' f.ty).2 ⟨f, ((getAllFacts_iff _ f).1 hfl).1, hfh, rfl, ((getAllFacts_iff _ f).1 hfl).2⟩
-              have hsome : ((writeBack e.wm rule.ty rule.action.sets).get hd').isSome = true :=
+              have hsome : ((writeBack e.wm rule.ty (e.setsOf rule)).get hd').isSome = true :=
                 (get_isSome_iff hi1 hd').2 (by obtain ⟨g, h1, h2, _, h4⟩ := hlive1; exact ⟨g, h1, h2, h4⟩)
               obtain ⟨g1, hg1⟩ := Option.isSome_iff_exists.1 hsome
-              let e1 : Engine := ({ e with wm := writeBack e.wm rule.ty rule.action.sets } : Engine).propagateAll
+              let e1 : Engine := ({ e with wm := writeBack e.wm rule.ty (e.setsOf rule) } : Engine).propagateAll
               have hu : e1.wm.retract hd' = some (e1.retract hd').1.wm := retract_live_handle e1 hi1 hd' g1 hg1
               obtain ⟨p1, p2, p3, p4, p5⟩ := engine_retract_post e1 hi1 hd1 hd'
               subst he'
@@ -555,7 +643,7 @@ theorem fireOne_post (e e' : Engine) (a : Act) (x : Firing) (hi : WMInv e.wm) (h
                         kept := fun hn => (by rw [hret] at hn; cases hn) }
               | some t =>
                 simp only [htg] at he'
-                let e1 : Engine := ({ e with wm := writeBack e.wm rule.ty rule.action.sets } : Engine).propagateAll
+                let e1 : Engine := ({ e with wm := writeBack e.wm rule.ty (e.setsOf rule) } : Engine).propagateAll
                 obtain ⟨p1, p2, p3, p4, p5⟩ := engine_retract_post e1 hi1 hd1 t
                 subst he'
                 exact { rule_found := hfound, got := hg, data := rfl, wminv := p1, dataOK := p2, rules := p3,
@@ -571,9 +659,13 @@ theorem fireOne_post (e e' : Engine) (a : Act) (x : Firing) (hi : WMInv e.wm) (h
                     live := fun h ty hl => (live_of_keys hk.1 h ty).1 hl,
                     retracted := fun hn => (by rw [hret'] at hn; cases hn),
                     kept := fun _ hty hs => (by
-                      have := wb_sole e.wm hi hd rule.ty rule.action.sets f hfl hty (fun g hg' hgt => hs g hg' (hgt.trans hty.symm))
+                      have := wb_sole e.wm hi hd rule.ty (e.setsOf rule) f hfl hty (fun g hg' hgt => hs g hg' (hgt.trans hty.symm))
                       rw [hfh] at this
-                      exact this) }
+                      have hflat := flatOf_sole e.wm rule.ty f hfl hty (fun g hg' hgt => hs g hg' (hgt.trans hty.symm))
+                      obtain ⟨f1, h1, h2⟩ := this
+                      refine ⟨f1, h1, fun k => ?_⟩
+                      rw [h2 k]
+                      simp only [Engine.setsOf, hflat]) }
 
 theorem fireOne_none (e e' : Engine) (a : Act) (h : e.fireOne a = (e', none)) : e' = e := by
   unfold Engine.fireOne at h
@@ -706,12 +798,12 @@ theorem writesOk_cons (rules : List Rule) (final L : List (Nat × Nat × Data)) 
     (r : Rule) (h' ty : Nat) (d0 : Data) (hr : rules.find? (·.name == x.rule) = some r)
     (hL : L.find? (·.1 == x.handle) = some (h', ty, d0)) :
     writesOk rules final L (x :: xs) =
-      ((if (ty == r.ty && !r.action.retract && !r.action.sets.isEmpty && ((L.filter (·.2.1 == ty)).length == 1)) = true then
+      ((if (ty == r.ty && !r.action.retract && (hasAssigns r && exprOk r x.data) && ((L.filter (·.2.1 == ty)).length == 1)) = true then
           (match xs with
            | [] => (match final.find? (·.1 == x.handle) with
-                    | some (_, _, d) => canonData d == canonData (applySets x.data r.action.sets)
+                    | some (_, _, d) => canonData d == canonData (applySets x.data (assignsOn r x.data))
                     | none => true)
-           | y :: _ => y.handle != x.handle || canonData y.data == canonData (applySets x.data r.action.sets))
+           | y :: _ => y.handle != x.handle || canonData y.data == canonData (applySets x.data (assignsOn r x.data)))
         else true)
        && writesOk rules final (if (r.action.retract && ty == r.ty) = true then L.filter (·.1 != x.handle) else L) xs) := by
   rw [writesOk]
@@ -767,7 +859,8 @@ theorem fireLoop_writes (rules : List Rule) (final : List (Nat × Nat × Data)) 
         have pknown : ∀ h ty, Known e.wm h ty → Known e1.wm h ty := by rw [← hw]; exact post.known
         have plive : ∀ h ty, Live e1.wm h ty → Live e.wm h ty := by rw [← hw]; exact post.live
         have pkept : rule.action.retract = false → f.ty = rule.ty → (∀ g ∈ e.wm.getAllFacts, g.ty = f.ty → g = f) →
-            ∃ f', e1.wm.get x.handle = some f' ∧ ∀ k, f'.data.get k = (applySets f.data rule.action.sets).get k := by
+            ∃ f', e1.wm.get x.handle = some f' ∧
+              ∀ k, f'.data.get k = (applySets f.data (rule.action.resolve rule.ty (fun t => flatOf e.wm t) f.data)).get k := by
           rw [← hw]; exact post.kept
         have hfin1 : FinalOf final (fireLoop n e1 []).1.wm := by rw [← h1]; exact hfin
         cases hL : L.find? (·.1 == (canonF x).handle) with
@@ -792,8 +885,10 @@ theorem fireLoop_writes (rules : List Rule) (final : List (Nat × Nat × Data)) 
           · -- the clause for this firing
             split
             · rename_i hc
-              simp only [Bool.and_eq_true, beq_iff_eq, Bool.not_eq_true', List.isEmpty_eq_false_iff] at hc
-              obtain ⟨⟨⟨c1, c2⟩, _⟩, c4⟩ := hc
+              simp only [Bool.and_eq_true, beq_iff_eq, Bool.not_eq_true'] at hc
+              obtain ⟨⟨⟨c1, c2⟩, _, cx⟩, c4⟩ := hc
+              have cloc : rule.action.localTo rule.ty = true := by
+                simp only [exprOk, Bool.and_eq_true] at cx; exact cx.1
               have hsole : ∀ g ∈ e.wm.getAllFacts, g.ty = f.ty → g = f := by
                 intro g hg hgt
                 obtain ⟨hgm, hgr⟩ := (getAllFacts_iff _ g).1 hg
@@ -810,8 +905,10 @@ theorem fireLoop_writes (rules : List Rule) (final : List (Nat × Nat × Data)) 
                   exact this.1
                 exact fact_unique hi hfm hgm this
               obtain ⟨f', hg', hdata⟩ := pkept c2 (by rw [← hty, c1]) hsole
-              have hexp : canonData f'.data = canonData (applySets (canonF x).data rule.action.sets) := by
-                simp only [canonF, post.data]
+              have hexp : canonData f'.data = canonData (applySets (canonF x).data (assignsOn rule (canonF x).data)) := by
+                simp only [canonF, post.data, assignsOn]
+                rw [resolve_congr rule.action rule.ty (fun _ => []) (fun t => flatOf e.wm t) (canonData f.data) f.data
+                  (canon_get f.data) cloc]
                 exact expected_eq f f' _ hdata
               cases hrest : (fireLoop n e1 []).2 with
               | nil =>
@@ -835,7 +932,7 @@ theorem fireLoop_writes (rules : List Rule) (final : List (Nat × Nat × Data)) 
                 by_cases hyh : y.handle = x.handle
                 · rw [hyh, hg'] at hgy
                   cases hgy
-                  have : canonData (canonF y).data = canonData (applySets (canonF x).data rule.action.sets) := by
+                  have : canonData (canonF y).data = canonData (applySets (canonF x).data (assignsOn rule (canonF x).data)) := by
                     rw [← hexp]; simp only [canonF, hdy]; exact canon_idem _
                   simp [this]
                 · have : ((canonF y).handle != (canonF x).handle) = true := by simpa [canonF] using hyh
